@@ -167,6 +167,9 @@ pub enum FdSpec {
     Socket,
     EventFd,
     DevNull,
+    /// a descriptor on `/proc/<child>/fd` of a child that has since died and been reaped: it is
+    /// listed in the target's fd directory and its link can be read, but it cannot be stat'ed
+    DeadProcDir,
 }
 
 /// What the target reports back (written to <dir>/manifest.json once everything is ready).
